@@ -112,7 +112,7 @@ def native_lib(primary, support=(), flags=(), extra_c='', name=None, expose_stat
     cflags = ['-O0', '-fPIC', '-g0', '-Wno-everything', '-ffp-contract=off'] + (['-fsanitize=address'] if sanitize else [])
     for tu in primary + support:
         keys.append(preprocessed_hash(tu, list(flags)))
-    h = hashlib.sha256(('|'.join(keys) + extra_c + repr(flags) + repr(primary) + repr(sanitize) + repr(sorted(redirect)) + repr(hook_atomics) + 'v3' + STUB_PRELUDE).encode()).hexdigest()[:24]
+    h = hashlib.sha256(('|'.join(keys) + extra_c + repr(flags) + repr(primary) + repr(sanitize) + repr(sorted(redirect)) + repr(hook_atomics) + 'v4' + STUB_PRELUDE).encode()).hexdigest()[:24]
     so = os.path.join(WORK, 'lib_%s_%s.so' % (name or 'native', h))
     if os.path.exists(so):
         return so
@@ -132,7 +132,7 @@ def native_lib(primary, support=(), flags=(), extra_c='', name=None, expose_stat
                 if nh: txt += '\ndeclare i64 @vf_atomic_add_hook(i64*, i64)\n'
             open(ll, 'w').write(txt)
             o = ll + '.o'
-            _run([CLANG, '-c'] + cflags + [ll, '-o', o])
+            _run([CLANG, '-c'] + [f for f in cflags if f != '-fsanitize=address'] + [ll, '-o', o])    # IR is already instrumented at the emit step
             objs.append(o)
         for tu in support:
             src = _src(tu)
